@@ -145,7 +145,7 @@ def r82(ctx):
                 arg = unparse(c.args[-1]) if c.args else '?'
                 ok = c.func.attr == 'append' and any(
                     (unparse(cn.ast) in (f'{arg} not in {lst}', f'not {arg} in {lst}') and br) or (unparse(cn.ast) == f'{arg} in {lst}' and not br)
-                    for (cn, br) in g.guard_branches(node))
+                    for (cn, br) in g.guard_branches(node, atoms=True))
                 ctx.ob('R8.2', f'{P}.{fn.name}:append', ok, sample=f'{P}.{fn.name}: {short(c)} guarded by not-in test: {ok}')
                 if not ok:
                     ctx.finding('R8.2', f'{P}.{fn.name}:{c.func.attr}', ci, c,
@@ -157,7 +157,7 @@ def r82(ctx):
                 tgt = [t for t in st.targets if isinstance(t, ast.Subscript) and is_self_attr(t.value, F)][0]
                 key, lst = unparse(tgt.slice), unparse(tgt)
                 g = g or CFG(fn)
-                guards = [(unparse(cn.ast), br) for (cn, br) in g.guard_branches(g.node_for(st))]
+                guards = [(unparse(cn.ast), br) for (cn, br) in g.guard_branches(g.node_for(st), atoms=True)]
                 if isinstance(st.value, ast.List) and st.value.elts:
                     # a list display with elements is an insertion: only into a fresh key, one element
                     n += 1
@@ -223,7 +223,7 @@ def r83(ctx):
             g = g or CFG(fn)
             node = _node_containing(g, x) if not isinstance(x, ast.stmt) else g.node_for(x)
             ok = any((unparse(cn.ast) == f'{key} in {lst}' and br) or (unparse(cn.ast) in (f'{key} not in {lst}', f'not {key} in {lst}') and not br)
-                     for (cn, br) in g.guard_branches(node))
+                     for (cn, br) in g.guard_branches(node, atoms=True))
             ctx.ob('R8.3', f'{P}.{fn.name}:{kind}', ok, sample=f'{P}.{fn.name}: {short(x, 60)} guarded by `{key} in {lst}`: {ok}')
             if not ok:
                 ctx.finding('R8.3', f'{P}.{fn.name}:{kind}-unguarded', ci, x,
@@ -238,7 +238,7 @@ def r83(ctx):
     ok = False
     if dels:
         node = g.node_for(dels[0])
-        for (cn, br) in g.guard_branches(node):
+        for (cn, br) in g.guard_branches(node, atoms=True):
             t = unparse(cn.ast).replace(f'list(self.{F}[{et}])', f'self.{F}[{et}]')
             if (t in (f'len(self.{F}[{et}]) == 0', f'not self.{F}[{et}]', f'len(self.{F}[{et}]) < 1') and br) or \
                     (t in (f'len(self.{F}[{et}]) > 0', f'self.{F}[{et}]') and not br):
@@ -263,17 +263,23 @@ def r83(ctx):
         acts = []
 
         def walk(stmts):
+            """collects the actions of the path chosen by (event_type is None, listener is None); True when the path returned"""
             for s in stmts:
                 if isinstance(s, ast.If):
                     v = ge.ev(s.test)
                     if v is None:
                         # a membership guard around the action
-                        walk(s.body)
-                        walk(s.orelse)
-                    else:
-                        walk(s.body if v else s.orelse)
+                        r1 = walk(s.body)
+                        r2 = walk(s.orelse)
+                        if r1 and r2:
+                            return True
+                    elif walk(s.body if v else s.orelse):
+                        return True
+                elif isinstance(s, ast.Return):
+                    return True
                 elif isinstance(s, ast.Raise):
                     acts.append('raise')
+                    return True
                 elif isinstance(s, ast.For):
                     form, base = copy_of(s.iter)
                     inner = [unparse(x) for b in s.body for x in ast.walk(b) if isinstance(x, ast.Call) and isinstance(x.func, ast.Attribute) and x.func.attr == 'remove_listener']
@@ -294,6 +300,7 @@ def r83(ctx):
                         acts.append('call:' + t[:40])
                 elif isinstance(s, ast.Assign) and any(is_self_attr(t, F) for t in s.targets):
                     acts.append('clear-all' if isinstance(s.value, (ast.Dict, ast.Call)) else 'assign')
+            return False
         walk(body_of(ra))
         ctx.examined()
         ok = acts == [expected]
@@ -402,7 +409,7 @@ def r85(ctx):
         under = []
         if ok:
             node = g.node_for(i)
-            conds = [(unparse(c.ast), br) for (c, br) in g.guard_branches(node)]
+            conds = [(unparse(c.ast), br) for (c, br) in g.guard_branches(node, atoms=True)]
             meta = any('metadata' in t and ('is not None' in t or '!= None' in t) and br for (t, br) in conds)
             chk = any(t == check and br for (t, br) in conds)
             inloop = any(isinstance(l, ast.For) and any(x is i for x in ast.walk(l)) and 'metadata' in unparse(l.iter) for l in walk_shallow(fn))
@@ -449,7 +456,7 @@ def r86(ctx):
     guard = False
     if stores:
         node = g.node_for(stores[0])
-        guard = any(f'isinstance({p},' in unparse(c.ast) and not br for (c, br) in g.guard_branches(node))
+        guard = any(f'isinstance({p},' in unparse(c.ast) and not br for (c, br) in g.guard_branches(node, atoms=True))
     sup = [c for c in walk_shallow(fn) if isinstance(c, ast.Call) and isinstance(c.func, ast.Attribute) and c.func.attr == '__init__']
     pass_ok = bool(sup) and [unparse(a) for a in sup[0].args] == [a.arg for a in fn.args.args[2:]]
     ctx.ob('R8.6', 'TimedEvent.__init__', ok and guard and pass_ok, sample=f'TimedEvent: stores {p} -> {unparse(r) if r is not None else "?"}; type guard first {guard}; forwards the rest to Event {pass_ok}')
